@@ -338,11 +338,50 @@ func runC18(r *mc.Run) {
 			o.Validation.TdQuoteBodyOptions.AnyMrTd = [][]byte{flip(cos[48+136:48+184], 9)}
 		}},
 	}
+	// the three owner-supplied identities (all 48 bytes) pinned to the quote's own values — a control — and
+	// cross-wired: each expectation holding another identity's value of the same quote
+	ownerFrom := len(pfaults)
+	fieldAt := func(p *world.QuoteParts, k int) []byte { return append([]byte(nil), p.Body[184+48*k:232+48*k]...) }
+	for _, perm := range [][3]int{{0, 1, 2}, {0, 2, 1}, {1, 0, 2}, {2, 1, 0}, {1, 2, 0}, {2, 0, 1}} {
+		perm := perm
+		pfaults = append(pfaults, c18fault{fmt.Sprintf("owner-identities-pinned:config-id=field%d,owner=field%d,owner-config=field%d", perm[0], perm[1], perm[2]), func(p *world.QuoteParts, o *rtmr.ParseTdxCcelOpts) {
+			o.Validation.TdQuoteBodyOptions.MrConfigID = fieldAt(p, perm[0])
+			o.Validation.TdQuoteBodyOptions.MrOwner = fieldAt(p, perm[1])
+			o.Validation.TdQuoteBodyOptions.MrOwnerConfig = fieldAt(p, perm[2])
+		}})
+	}
+	for k, nm := range []string{"config-id", "owner", "owner-config"} {
+		for j := 0; j < 3; j++ {
+			if j == k {
+				continue
+			}
+			k, j := k, j
+			pfaults = append(pfaults, c18fault{fmt.Sprintf("only-%s-pinned-to-field%d", nm, j), func(p *world.QuoteParts, o *rtmr.ParseTdxCcelOpts) {
+				v := fieldAt(p, j)
+				switch k {
+				case 0:
+					o.Validation.TdQuoteBodyOptions.MrConfigID = v
+				case 1:
+					o.Validation.TdQuoteBodyOptions.MrOwner = v
+				case 2:
+					o.Validation.TdQuoteBodyOptions.MrOwnerConfig = v
+				}
+			}})
+		}
+	}
+	ownerTo := len(pfaults)
 	type c18case struct{ v, p, bit, lg int }
 	var cases []c18case
 	for v := range vfaults {
 		for p := range pfaults {
 			cases = append(cases, c18case{v, p, -1, 0})
+		}
+	}
+	// lg bit 1: the quote carries three distinct owner-supplied identities (the sample's are equal to each other)
+	for p := range pfaults {
+		cases = append(cases, c18case{0, p, -1, 2})
+		if p == 0 || (p >= ownerFrom && p < ownerTo) {
+			cases = append(cases, c18case{2, p, -1, 2}, c18case{0, p, -1, 3}, c18case{0, p, 384 + 5, 2})
 		}
 	}
 	nbits := 4 * 384
@@ -404,15 +443,23 @@ func runC18(r *mc.Run) {
 		} else if c.bit >= 0 {
 			id += fmt.Sprintf(",rtmr%d^bit%d", c.bit/384, c.bit%384)
 		}
-		if c.lg == 1 {
+		if c.lg&1 == 1 {
 			id = "ccel+rtmr3-event/" + id[5:]
+		}
+		if c.lg&2 != 0 {
+			id += ",distinct-owner-identities"
 		}
 		if !r.Want(id) {
 			return
 		}
-		measured := measuredBy[c.lg]
+		measured := measuredBy[c.lg&1]
 		p := baseParts()
-		if c.lg == 1 {
+		if c.lg&2 != 0 {
+			copy(p.Body[184:232], world.Fill("c18-config-id", 48))
+			copy(p.Body[232:280], world.Fill("c18-owner", 48))
+			copy(p.Body[280:328], world.Fill("c18-owner-config", 48))
+		}
+		if c.lg&1 == 1 {
 			copy(p.Body[328+48*3:376+48*3], regs2[3][:])
 		}
 		o := baseOpts()
@@ -458,7 +505,7 @@ func runC18(r *mc.Run) {
 		var err error
 		func() {
 			defer world.Recover(&err)
-			st, err = rtmr.ParseCcelWithTdQuote(logs[c.lg], tableBytes, q, o)
+			st, err = rtmr.ParseCcelWithTdQuote(logs[c.lg&1], tableBytes, q, o)
 		}()
 		// reference gates
 		gateV := c.v == 0 || c.v >= nControlsFrom
